@@ -87,6 +87,14 @@ IndexMapCovered ==
      /\ \E g \in Groups : g.kernel = k /\ g.indexmaps /\ ~g.p2sprefix
      /\ \E g \in Groups : g.kernel = k /\ g.indexmaps /\ g.noncontig /\ g.variant = "random"
      /\ \A g \in Groups : g.kernel = k => g.indexmaps
+(* the Gonze-Lee reciprocal dipole-dipole kernel must be exercised where a   *)
+(* K = G + q vanishes (q = 0 or q = a reciprocal lattice point) WITH a       *)
+(* q-direction and with its own use_openmp flag on, both as recorded and     *)
+(* with random data: the limiting term is the only schedule-sensitive spot   *)
+LimitCovered ==
+  ("recip_dipole_dipole" \in Kernels) =>
+     /\ \E g \in Groups : g.kernel = "recip_dipole_dipole" /\ g.gllimit /\ g.variant = "recorded"
+     /\ \E g \in Groups : g.kernel = "recip_dipole_dipole" /\ g.gllimit /\ g.variant = "random"
 
 -----------------------------------------------------------------------------
 (* Plan: enumerate the matrix (spec -> code); Check: judge groups            *)
@@ -110,5 +118,5 @@ ImplCoversMatrix          == InCheck => ReqMatrix(grp)
 ImplKernelKnown           == InCheck => ReqKernelKnown(grp)
 ImplGlue                  == (phase = "glue") => GlueOK(grp)
 ImplAllKernelsCovered     == (phase = "cover") => Covered
-ImplIndexMapCoverage      == (phase = "cover") => IndexMapCovered
+ImplIndexMapCoverage      == (phase = "cover") => IndexMapCovered /\ LimitCovered
 =============================================================================
